@@ -3,10 +3,11 @@
   LP collateral, liquidation, balance) next to the few UniLpMarket facts it touches (positions map with
   liquidity / pending amounts / `transferred`, remove_liquidity + collect_fee as used by `_redeem_uni_token`).
 
-  The model mirrors the code statement by statement, including "mutate, then check" orders: every operation
-  returns the state the code leaves behind together with the error it raised (`Res`).  The repaired code wraps
-  the public vault operations in a transaction (`SqueethMarket._atomic`): on error the state is restored — that
-  wrapper is `atomic` below, and `step` is the wrapped operation while `stepBody` is the raw body.
+  The model mirrors the code statement by statement, including "mutate, then check" orders: every operation body
+  returns the state the code leaves behind together with the error it raised (`Res`).  The code wraps the public
+  vault operations in a transaction (`SqueethMarket._atomic` / `_VaultTransaction`): on error vaults, wallet, pool
+  positions and the action list are restored — that wrapper is `atomic` below; `step` is the operation as called,
+  `stepBody` the raw body.
 
   Fixed modelling decisions (see harness/c14.py ASSUMPTIONS):
   * the oSQTH/WETH pool has token0 = WETH = quote token, token1 = oSQTH (mainnet pool and the repo's tests);
@@ -222,8 +223,10 @@ def creditW (cx : NumCtx) (s : State) (tok : String) (amount : Rat) : State :=
 
 /-! ### vault operations (bodies as written in the code) -/
 
-/-- `deposit` after the repair: vault lookup, sign check and wallet debit precede the vault update -/
+/-- `deposit`: the vault is credited before the wallet is debited (the transaction wrapper undoes it on failure) -/
 def depositBody (cx : NumCtx) (s : State) (vk : Nat) (eth : Rat) : Res :=
+  if eth < 0 then .fail (.demeter "negative-deposit") s
+  else
   match AList.get? s.vaults vk with
   | none => .fail (.key "vault") s
   | some v =>
@@ -366,19 +369,28 @@ def reduceDebtBody (cx : NumCtx) (e : Env) (s : State) (vk : Nat) (payBounty : B
     match v.nft with
     | none => (.ok s [0, 0, 0, 0], 0)
     | some pos =>
-      match uniRedeem cx e s pos false with
-      | (⟨some er, s1, _⟩, _, _) => (.fail er s1, 0)
-      | (⟨none, s1, _⟩, f0, f1) =>
-        -- `weth_get, osqth_get = collect_fee(...)`, which returns (base, quote) = (oSQTH, WETH) amounts
-        let wEth := f1
-        let wOsqth := f0
-        let bounty := if payBounty then cx.mul (cx.add (cx.mul wOsqth (twap e .osqth)) wEth) sqReduceDebtBounty else 0
-        let excess := if wOsqth > v.short then cx.sub wOsqth v.short else 0
-        let burn := if wOsqth > v.short then v.short else wOsqth
-        let v' : Vault := { coll := cx.sub (cx.add v.coll wEth) bounty, short := cx.sub v.short burn, nft := none }
-        let s2 := s1.setVault vk v'
-        let s3 := if excess > 0 then creditW cx s2 sqOsqthName excess else s2
-        (.ok (s3.record (.reduceDebt vk pos wEth wOsqth burn excess bounty v'.short v'.coll)) [burn, excess, bounty, wEth], bounty)
+      -- `transfer_position_in(position)`: the vault hands the position back to the pool's books, then redeems it
+      match AList.get? s.positions pos with
+      | none => (.fail (.demeter "not-transferred") s, 0)
+      | some p =>
+        if !p.transferred then (.fail (.demeter "not-transferred") s, 0)
+        else
+        match uniRedeem cx e (s.setPos pos { p with transferred := false }) pos false with
+        | (⟨some er, s1, _⟩, _, _) => (.fail er s1, 0)
+        | (⟨none, s1, _⟩, f0, f1) =>
+          -- `_redeem_uni_token`: collect_fee's (base, quote) answer converted back to (token0, token1) = (WETH, oSQTH)
+          let wEth := f0
+          let wOsqth := f1
+          let bounty0 := if payBounty then cx.mul (cx.add (cx.mul wOsqth (twap e .osqth)) wEth) sqReduceDebtBounty else 0
+          let excess := if wOsqth > v.short then cx.sub wOsqth v.short else 0
+          let burn := if wOsqth > v.short then v.short else wOsqth
+          let c1 := cx.add v.coll wEth
+          -- the bounty comes out of the vault's ETH and is capped by it
+          let bounty := if bounty0 > c1 then c1 else bounty0
+          let v' : Vault := { coll := cx.sub c1 bounty, short := cx.sub v.short burn, nft := none }
+          let s2 := s1.setVault vk v'
+          let s3 := if excess > 0 then creditW cx s2 sqOsqthName excess else s2
+          (.ok (s3.record (.reduceDebt vk pos wEth wOsqth burn excess bounty v'.short v'.coll)) [burn, excess, bounty, wEth], bounty)
 
 /-- `_get_single_liquidation_amount` -/
 def singleLiq (cx : NumCtx) (e : Env) (maxIn maxLiq : Rat) : Rat × Rat :=
@@ -389,7 +401,7 @@ def singleLiq (cx : NumCtx) (e : Env) (maxIn maxLiq : Rat) : Rat × Rat :=
 /-- `_get_liquidation_result` -/
 def liquidationResult (cx : NumCtx) (e : Env) (maxAmt short coll : Rat) : Rat × Rat :=
   let r := singleLiq cx e maxAmt (cx.div short sqLiqDivisor)
-  let r := if coll > r.2 ∧ cx.sub coll r.2 < sqMinDeposit then singleLiq cx e maxAmt short else r
+  let r := if coll ≥ r.2 ∧ cx.sub coll r.2 < sqMinDeposit then singleLiq cx e maxAmt short else r
   if r.2 > coll then (short, coll) else r
 
 /-- `_liquidate(vault, max_debt_amount, norm_factor)` -/
@@ -433,12 +445,21 @@ def liquidateBody (cx : NumCtx) (e : Env) (s : State) (vk : Nat) : Res :=
 
 /-! ### transactions -/
 
-/-- `SqueethMarket._atomic`: an operation that raises leaves vaults, wallet, pool positions and action log as
-    they were -/
+/-- `SqueethMarket._atomic` (`_VaultTransaction`): an operation that raises leaves vaults, wallet, pool positions
+    and action list as they were -/
 def atomic (s : State) (r : Res) : Res :=
   match r.err with
   | some er => .fail er s
   | none => r
+
+/-- `liquidate` as called (decorated with `_atomic`) -/
+def liquidateOp (cx : NumCtx) (e : Env) (s : State) (vk : Nat) : Res := atomic s (liquidateBody cx e s vk)
+
+/-- public `UniLpMarket.remove_liquidity(pos)` (collect=True): refused while the position is lent to a vault -/
+def uniRemoveOp (cx : NumCtx) (e : Env) (s : State) (pos : PosKey) : Res :=
+  match AList.get? s.positions pos with
+  | some p => if p.transferred then .fail (.demeter "transferred-out") s else (uniRedeem cx e s pos true).1
+  | none => (uniRedeem cx e s pos true).1
 
 /-- `update`: `for vk, v in self.vault.items(): if not above water: self.liquidate(vk)` -/
 def updateGo (liq : State → Nat → Res) (cx : NumCtx) (e : Env) : List Nat → State → Res
@@ -462,7 +483,7 @@ inductive Op
   | uniRemove (pos : PosKey)
 deriving DecidableEq, Repr
 
-/-- the operation bodies as written (no transaction wrapper) -/
+/-- the operation bodies as written (what runs inside the transaction wrapper) -/
 def stepBody (cx : NumCtx) (e : Env) (s : State) : Op → Res
   | .openMint d m vk pos => openBody cx e s d m vk pos
   | .deposit vk eth => depositBody cx s vk eth
@@ -470,11 +491,18 @@ def stepBody (cx : NumCtx) (e : Env) (s : State) : Op → Res
   | .withdrawUni vk pos => withdrawUniBody cx e s vk pos
   | .burnWithdraw vk b w => burnWithdrawBody cx e s vk b w
   | .liquidate vk => liquidateBody cx e s vk
-  | .update => updateGo (liquidateBody cx e) cx e (s.vaults.map (·.1)) s
+  | .update => updateGo (liquidateOp cx e) cx e (s.vaults.map (·.1)) s
   | .reduceDebt vk pb => (reduceDebtBody cx e s vk pb).1
-  | .uniRemove pos => (uniRedeem cx e s pos true).1
+  | .uniRemove pos => uniRemoveOp cx e s pos
 
-/-- what a call of the public operation does -/
-def step (cx : NumCtx) (e : Env) (s : State) (op : Op) : Res := stepBody cx e s op
+/-- which operations are decorated with `_atomic` in the code: the public vault operations.  `update` is a loop of
+    transactions (each `liquidate` is one), `_reduce_debt` is private, `remove_liquidity` belongs to the pool. -/
+def Op.isAtomic : Op → Bool
+  | .openMint .. | .deposit .. | .depositUni .. | .withdrawUni .. | .burnWithdraw .. | .liquidate .. => true
+  | .update | .reduceDebt .. | .uniRemove .. => false
+
+/-- what a call of the operation does -/
+def step (cx : NumCtx) (e : Env) (s : State) (op : Op) : Res :=
+  if op.isAtomic then atomic s (stepBody cx e s op) else stepBody cx e s op
 
 end Demeter.Squeeth
